@@ -104,6 +104,17 @@ def table_cases(forms, rng, tier):
                     c = gen.new_case(f, mode, ops, "mem" if want_mem else "reg", opts, ("k", 3) if masked else None)
                     c["masked"] = masked
                     cases.append(c)
+                    # boundary of the upper vector bank: exactly one vector register operand gets id 16 / 31 and the
+                    # {evex} hint is NOT given - the assembler must pick EVEX by itself and query_features must follow
+                    if f["prefix"] == "EVEX" and mode == 64 and not masked:
+                        vec_pos = [i for i, op in enumerate(ops) if op[0] == "R" and op[1] in ("xmm", "ymm", "zmm")][:3]
+                        for i in vec_pos:
+                            for hid in (16, 31):
+                                hops = list(ops)
+                                hops[i] = ("R", ops[i][1], hid)
+                                hc = gen.new_case(f, mode, hops, ("mem" if want_mem else "reg") + "-hi%d@%d" % (hid, i), 0, None)
+                                hc["masked"] = False
+                                cases.append(hc)
     return cases
 
 
